@@ -914,7 +914,7 @@ func C18(ctx *core.Ctx) error {
 	venues := map[string]int{}
 	edSkipped := 0
 	nr := 0
-	perRow := ctx.Pick(2, len(roots))
+	perRow := ctx.Pick(2, 4)
 	var edRows []c18Row
 	for _, row := range rows {
 		v := row.venue()
